@@ -29,6 +29,9 @@ def check_mutant(rec, base, mutant, kind, pos):
 
 
 def replay(rec, case):
+    if case["input"].get("origin") == "configurations":
+        from ._configs import replay as _r
+        return _r(rec, case)
     i = case["input"]
     check_mutant(rec, i["base"], i["mutant"], i["kind"], i["pos"])
 
@@ -119,4 +122,6 @@ def run(ctx):
                        "reference also rejects it (otherwise harness error).")
     ctx.assumptions = ["'same kind' = ASCII digit for digit, ASCII upper-case letter for letter"]
     ctx.pmap(shard, [(cc, ctx.seed, ctx.tier) for cc in oracle().countries()])
+    from ._configs import stage as _config_stage
+    _config_stage(ctx, ['parse'])
     ctx.require_classes("replace-digit", "replace-letter", "swap-digit", "swap-letter", "base-self-similar", "base-near-self-similar", "base-nationally-valid")
